@@ -7,6 +7,7 @@ use super::wake_queue::*;
 use std::sync::*;
 #[cfg(feature = "verif-hooks")]
 use crate::verif::sync::*;
+use std::thread;
 use std::collections::vec_deque::*;
 
 use futures::task;
@@ -229,8 +230,15 @@ impl SchedulerCore {
 
         // Find the first thread that is not marked as busy and schedule this task on it
         for &(ref busy_rc, ref thread) in threads.iter() {
-            if let Ok(mut busy) = busy_rc.try_lock() {
-                // If the busy lock is held, then we consider the thread to be busy
+            // A thread holds its busy lock while it looks for more work. It's usually busy, but it may also be about to go dormant without
+            // having seen the work that we're scheduling, so a thread that's making that decision is checked again once it has made it
+            let mut try_busy = busy_rc.try_lock();
+            while let Err(TryLockError::WouldBlock) = try_busy {
+                thread::yield_now();
+                try_busy = busy_rc.try_lock();
+            }
+
+            if let Ok(mut busy) = try_busy {
                 if !*busy {
                     // Clone the busy mutex so we can return this thread to readiness
                     let also_busy =  busy_rc.clone();
